@@ -1201,6 +1201,50 @@ func runSet(c *fw.Ctx, k *checker, as []*acc) {
 				acc: "DomainSearch", code: 119, rawOK: rawOK, want: want, class: "name-list"})
 		}
 	}
+	// get, edit in place, set, get: the list read from a packet that came off the wire is edited element-wise and
+	// set again through the typed constructor (a label set parsed from bytes carries those bytes with it)
+	for _, l := range nlists {
+		if len(l) > 2 {
+			continue
+		}
+		for k := range l {
+			for ei, edit := range []func(string) string{
+				func(n string) string { return "q" + n[1:] },                    // another name of the same length
+				func(n string) string { return strings.ToUpper(n[:1]) + n[1:] }, // the same letters in another case
+				func(n string) string { return "longer-" + n },                  // another length
+			} {
+				l, k, edit, ei := l, k, edit, ei
+				edited := append([]string(nil), l...)
+				edited[k] = edit(l[k])
+				if edited[k] == l[k] || len(edited[k]) > 70 {
+					continue
+				}
+				want := v4opt.CanonStrs("names", edited)
+				add(setCase{ctor: "DomainSearch() edited in place, then OptDomainSearch", arg: fmt.Sprintf("%q element %d -> %q (edit %d)", l, k, edited[k], ei),
+					apply: func(p *dhcpv4.DHCPv4) {
+						p.UpdateOption(dhcpv4.OptDomainSearch(&rfc1035label.Labels{Labels: append([]string(nil), l...)}))
+						q, err := dhcpv4.FromBytes(p.ToBytes())
+						if err != nil {
+							return
+						}
+						got := q.DomainSearch()
+						if got == nil || len(got.Labels) != len(l) {
+							return
+						}
+						got.Labels[k] = edited[k]
+						p.UpdateOption(dhcpv4.OptDomainSearch(got))
+					},
+					acc: "DomainSearch", code: 119, want: want, class: "name-list-edited-after-decoding",
+					rawOK: func(raw []byte) string {
+						r := v4opt.Interpret(v4opt.KNames, true, raw)
+						if r.Class != v4opt.Unspecified && r.Canon != want {
+							return "reference reading of the stored bytes: " + r.Canon
+						}
+						return ""
+					}})
+			}
+		}
+	}
 	// relay agent information: ordered selections of 1..3 distinct sub-option codes x value lengths.
 	// RFC 3046 fixes no order, so the stored bytes are judged by the reference reading.
 	subCodes := []uint8{1, 2, 5, 11, 82, 151, 254}
